@@ -24,4 +24,10 @@ func init() {
 		Old: "			err := flush(batch, h+1)", New: "			next := h + 1\n			err := flush(batch, next)"})
 	addWitness(Witness{Name: "pubsub-send-else-branch", Prop: "C19", Kind: "neutral", File: "libs/pubsub/pubsub.go",
 		Old: "			continue\n		}\n\n		if match {", New: "		} else if match {"})
+	for _, p := range []string{"C01", "C02", "C03"} {
+		addWitness(Witness{Name: "extract-unlock-helper-" + p, Prop: p, Kind: "neutral", File: st,
+			Old:  "				cs.Logger.Debug(\"unlocking because of POL\", \"locked_round\", cs.LockedRound, \"pol_round\", vote.Round)\n\n				cs.LockedRound = -1\n				cs.LockedBlock = nil\n				cs.LockedBlockParts = nil\n\n				if err := cs.eventBus.PublishEventUnlock(cs.RoundStateEvent()); err != nil {\n					return added, err\n				}\n",
+			New:  "				if err := cs.unlockOnPOL(vote.Round); err != nil {\n					return added, err\n				}\n",
+			More: []Edit{{File: st, Old: "func (cs *State) signVote(\n", New: "func (cs *State) unlockOnPOL(polRound int32) error {\n	cs.Logger.Debug(\"unlocking because of POL\", \"locked_round\", cs.LockedRound, \"pol_round\", polRound)\n\n	cs.LockedRound = -1\n	cs.LockedBlock = nil\n	cs.LockedBlockParts = nil\n\n	return cs.eventBus.PublishEventUnlock(cs.RoundStateEvent())\n}\n\nfunc (cs *State) signVote(\n"}}})
+	}
 }
